@@ -436,41 +436,24 @@ pub fn encode(text: &str, entry: Entry) -> Option<Vec<u8>> {
     }
 }
 
-/// All deviation sets with at most `k` deviations for the given menus (the empty set first).
+/// All deviation sets with at most `k` deviations for the given menus (the empty set first, then by size).
 pub fn ball(points: &[u8], k: usize) -> Vec<Vec<(usize, usize)>> {
-    let mut out: Vec<Vec<(usize, usize)>> = vec![vec![]];
-    if k >= 1 {
-        for (i, m) in points.iter().enumerate() {
-            for a in 1..*m as usize {
-                out.push(vec![(i, a)]);
+    fn rec(points: &[u8], from: usize, left: usize, cur: &mut Vec<(usize, usize)>, out: &mut Vec<Vec<(usize, usize)>>) {
+        if left == 0 {
+            out.push(cur.clone());
+            return;
+        }
+        for i in from..points.len() {
+            for a in 1..points[i] as usize {
+                cur.push((i, a));
+                rec(points, i + 1, left - 1, cur, out);
+                cur.pop();
             }
         }
     }
-    if k >= 2 {
-        for i in 0..points.len() {
-            for j in i + 1..points.len() {
-                for a in 1..points[i] as usize {
-                    for b in 1..points[j] as usize {
-                        out.push(vec![(i, a), (j, b)]);
-                    }
-                }
-            }
-        }
-    }
-    if k >= 3 {
-        for i in 0..points.len() {
-            for j in i + 1..points.len() {
-                for l in j + 1..points.len() {
-                    for a in 1..points[i] as usize {
-                        for b in 1..points[j] as usize {
-                            for c in 1..points[l] as usize {
-                                out.push(vec![(i, a), (j, b), (l, c)]);
-                            }
-                        }
-                    }
-                }
-            }
-        }
+    let mut out = vec![];
+    for size in 0..=k {
+        rec(points, 0, size, &mut vec![], &mut out);
     }
     out
 }
